@@ -6,7 +6,13 @@ def chain(profile, qn, tn, ops=80, tops=None, extra=None):
 
 SDK_TRUST = ["modelled, not verified: Cosmos SDK bank/auth/staking/distribution, baseapp transaction atomicity, IAVL, Tendermint"]
 
+GOV = {"engines": [chain("gov", 160, 1600, ops=100)], "trusted": SDK_TRUST + ["the staking module is an observed input of the tally (bonded validators, delegations, bonded total)"],
+       "assumptions": ["governance parameters are constant along a history", "shield-claim proposals are exercised by the shield checks"]}
+
 PROPS = {
+    "C11": dict(GOV, lean=["Shentu.Props.C11"]),
+    "C12": dict(GOV, lean=["Shentu.Props.C12"]),
+    "C13": dict(GOV, lean=["Shentu.Props.C13"]),
     "C15": {
         "lean": ["Shentu.Props.C15"],
         "engines": [chain("oracle", 160, 1600)],
